@@ -58,6 +58,8 @@ pub struct Sched {
     pub fail_at: Option<usize>,
     pub zero_at: Option<usize>,
     pub intr: Option<u64>,
+    pub fail_once: Option<usize>,
+    pub zero_once: Option<usize>,
 }
 
 pub fn sched_hash(seed: u64, off: usize) -> u64 {
@@ -65,7 +67,7 @@ pub fn sched_hash(seed: u64, off: usize) -> u64 {
 }
 
 pub fn parse_sched(s: &str) -> Sched {
-    let mut sc = Sched { uniform: None, seed: 0, fail_at: None, zero_at: None, intr: None };
+    let mut sc = Sched { uniform: None, seed: 0, fail_at: None, zero_at: None, intr: None, fail_once: None, zero_once: None };
     for t in s.split(',') {
         let n: u64 = t[1..].parse().unwrap_or(0);
         match &t[..1] {
@@ -74,6 +76,8 @@ pub fn parse_sched(s: &str) -> Sched {
             "f" => sc.fail_at = Some(n as usize),
             "z" => sc.zero_at = Some(n as usize),
             "i" => sc.intr = Some(n),
+            "F" => sc.fail_once = Some(n as usize),
+            "Z" => sc.zero_once = Some(n as usize),
             _ => {}
         }
     }
@@ -85,6 +89,8 @@ pub struct SchedSink {
     pub got: Vec<u8>,
     pub last_intr: Option<usize>,
     pub calls: usize,
+    /// the transient fault (`F<n>` / `Z<n>`) has happened
+    pub tripped: bool,
 }
 impl Write for SchedSink {
     fn write(&mut self, buf: &[u8]) -> io::Result<usize> {
@@ -94,6 +100,18 @@ impl Write for SchedSink {
             if sched_hash(s, off) % 3 == 0 && self.last_intr != Some(off) {
                 self.last_intr = Some(off);
                 return Err(io::Error::new(io::ErrorKind::Interrupted, "intr"));
+            }
+        }
+        if !self.tripped {
+            if let Some(n) = self.sched.fail_once {
+                if off >= n {
+                    self.tripped = true;
+                    return Err(io::Error::new(io::ErrorKind::Other, "injected-transient-write-fault"));
+                }
+            }
+            if self.sched.zero_once == Some(off) {
+                self.tripped = true;
+                return Ok(0);
             }
         }
         if let Some(n) = self.sched.fail_at {
@@ -109,7 +127,8 @@ impl Write for SchedSink {
             None => 1 + (sched_hash(self.sched.seed, off) % 5) as usize,
         };
         k = k.min(buf.len());
-        for lim in [self.sched.fail_at, self.sched.zero_at].iter().flatten() {
+        let (fo, zo) = if self.tripped { (None, None) } else { (self.sched.fail_once, self.sched.zero_once) };
+        for lim in [self.sched.fail_at, self.sched.zero_at, fo, zo].iter().flatten() {
             if *lim > off {
                 k = k.min(*lim - off);
             }
@@ -132,6 +151,12 @@ pub struct ChunkReader {
     pub toggle: bool,
     pub fault_at: Option<usize>,
     pub reads: usize,
+    /// kind of the injected fault (x/X: Other; w: WouldBlock, which a reader may be tempted to retry)
+    pub fault_kind: io::ErrorKind,
+    /// y<k>: one WouldBlock error after k bytes, then the stream continues
+    pub transient_at: Option<usize>,
+    pub tripped: bool,
+    pub polls_after_fault: usize,
 }
 impl Read for ChunkReader {
     fn read(&mut self, buf: &mut [u8]) -> io::Result<usize> {
@@ -142,11 +167,24 @@ impl Read for ChunkReader {
                 return Err(io::Error::new(io::ErrorKind::Interrupted, "intr"));
             }
         }
-        let limit = self.fault_at.unwrap_or(self.data.len()).min(self.data.len());
+        let mut limit = self.fault_at.unwrap_or(self.data.len()).min(self.data.len());
         if let Some(k) = self.fault_at {
             if self.pos >= k {
                 FAULT_HIT.store(true, std::sync::atomic::Ordering::SeqCst);
-                return Err(io::Error::new(io::ErrorKind::Other, "injected-read-fault"));
+                self.polls_after_fault += 1;
+                // a parser that keeps retrying a failing read never returns: make that observable
+                if self.polls_after_fault > 2000 { panic!("reader polled 2000 times after a persistent read error"); }
+                return Err(io::Error::new(self.fault_kind, "injected-read-fault"));
+            }
+        }
+        if let Some(k) = self.transient_at {
+            if !self.tripped {
+                if self.pos >= k {
+                    self.tripped = true;
+                    FAULT_HIT.store(true, std::sync::atomic::Ordering::SeqCst);
+                    return Err(io::Error::new(io::ErrorKind::WouldBlock, "injected-transient-read-fault"));
+                }
+                limit = limit.min(k);
             }
         }
         let n = buf.len().min(self.chunk).min(limit - self.pos);
@@ -158,7 +196,9 @@ impl Read for ChunkReader {
 
 /// src codes: s = &str, b = slice, i<k> = stream with k-byte chunks (0 = whole), j<k> = the same
 /// with Interrupted before every read, I<k>/J<k> = the same behind a BufReader,
-/// x<k> = stream failing after k bytes (1-byte chunks), X<k> = the same behind a BufReader.
+/// x<k> = stream failing after k bytes (1-byte chunks), X<k> = the same behind a BufReader,
+/// w<k> = stream failing for good with WouldBlock / TimedOut after k bytes,
+/// y<k> = stream reporting WouldBlock once after k bytes and delivering the rest afterwards.
 pub fn make_reader(src: &str, data: &[u8]) -> Box<dyn Read> {
     let k: usize = src[1..].parse().unwrap_or(0);
     let mut r = ChunkReader {
@@ -169,6 +209,10 @@ pub fn make_reader(src: &str, data: &[u8]) -> Box<dyn Read> {
         toggle: false,
         fault_at: None,
         reads: 0,
+        fault_kind: io::ErrorKind::Other,
+        transient_at: None,
+        tripped: false,
+        polls_after_fault: 0,
     };
     let c = src.as_bytes()[0];
     match c {
@@ -181,6 +225,15 @@ pub fn make_reader(src: &str, data: &[u8]) -> Box<dyn Read> {
         b'x' | b'X' => {
             r.chunk = if c == b'x' { 1 } else { 7 };
             r.fault_at = Some(k);
+        }
+        b'w' => {
+            r.chunk = 3;
+            r.fault_at = Some(k);
+            r.fault_kind = if k % 2 == 0 { io::ErrorKind::WouldBlock } else { io::ErrorKind::TimedOut };
+        }
+        b'y' => {
+            r.chunk = 5;
+            r.transient_at = Some(k);
         }
         _ => panic!("bad src"),
     }
@@ -309,8 +362,17 @@ fn run_history<'de, R: lexpr::parse::Read<'de>>(mut p: Parser<R>, api: &str) -> 
 }
 
 /// `parse <fast> <src> <R10> <api> <hex>`
+/// the items of a history on a transiently failing stream (`y<k>`), for the direct oracle
+pub fn exec_parse_transient(t: &[&str]) -> String {
+    let opts = parse_opts(t[3]);
+    let data = if t.len() > 5 { unhex(t[5]) } else { vec![] };
+    run_history(Parser::from_reader_custom(make_reader(t[2], &data), opts), t[4]).join(" | ")
+}
+
 pub fn exec_parse(t: &[&str]) -> String {
     let src = t[2];
+    // a stream that fails once and then recovers is outside the model: oracle only (see oracle.rs)
+    if src.starts_with('y') { return "oracle-only".into(); }
     let opts = parse_opts(t[3]);
     let api = t[4];
     let data = if t.len() > 5 { unhex(t[5]) } else { vec![] };
@@ -583,11 +645,95 @@ pub fn exec_print(t: &[&str]) -> String {
     }
 }
 
+/// `opts R <start> <setter>*` / `opts P <start> <setter>*`: a chain of builder calls on an option value.
+/// Parser options: `R <digits from the getters> <digits from the reader's behaviour on probe tokens>`;
+/// printer options (no getters): `P <digits from the printer's behaviour on probe values>`.
+pub fn exec_opts(t: &[&str]) -> String {
+    let r = catch_unwind(AssertUnwindSafe(|| {
+        if t[1] == "R" {
+            use lexpr::parse::*;
+            let mut o = match t[2] { "new" => Options::new(), "elisp" => Options::elisp(), _ => Options::default() };
+            let kw = |c: u8| match c { b'0' => KeywordSyntax::ColonPrefix, b'1' => KeywordSyntax::ColonPostfix, _ => KeywordSyntax::Octothorpe };
+            for op in &t[3..] {
+                let b = op.as_bytes();
+                o = match b[0] {
+                    b'k' => o.with_keyword_syntax(kw(b[1])),
+                    b'K' => o.with_keyword_syntaxes(b[1..].iter().map(|c| kw(*c)).collect::<Vec<_>>()),
+                    b'n' => o.with_nil_symbol(match b[1] { b'0' => NilSymbol::EmptyList, b'1' => NilSymbol::Default, _ => NilSymbol::Special }),
+                    b't' => o.with_t_symbol(if b[1] == b'0' { TSymbol::True } else { TSymbol::Default }),
+                    b'b' => o.with_brackets(if b[1] == b'0' { Brackets::List } else { Brackets::Vector }),
+                    b's' => o.with_string_syntax(if b[1] == b'0' { StringSyntax::R6RS } else { StringSyntax::Elisp }),
+                    b'c' => o.with_char_syntax(if b[1] == b'0' { CharSyntax::R6RS } else { CharSyntax::Elisp }),
+                    b'r' => o.with_racket_hash_percent_symbols(b[1] == b'1'),
+                    b'd' => o.with_leading_digit_symbols(b[1] == b'1'),
+                    _ => return "bad-op".to_string(),
+                };
+            }
+            let bit = |x: bool| if x { '1' } else { '0' };
+            let mut g = String::new();
+            g.push(bit(o.keyword_syntax(KeywordSyntax::ColonPrefix)));
+            g.push(bit(o.keyword_syntax(KeywordSyntax::ColonPostfix)));
+            g.push(bit(o.keyword_syntax(KeywordSyntax::Octothorpe)));
+            g.push(match o.nil_symbol() { NilSymbol::EmptyList => '0', NilSymbol::Default => '1', NilSymbol::Special => '2' });
+            g.push(match o.t_symbol() { TSymbol::True => '0', TSymbol::Default => '1' });
+            g.push(match o.brackets() { Brackets::List => '0', Brackets::Vector => '1' });
+            g.push(match o.string_syntax() { StringSyntax::R6RS => '0', StringSyntax::Elisp => '1' });
+            g.push(match o.char_syntax() { CharSyntax::R6RS => '0', CharSyntax::Elisp => '1' });
+            g.push(bit(o.racket_hash_percent_symbols()));
+            g.push(bit(o.leading_digit_symbols()));
+            // behaviour on probe tokens
+            let p = |s: &str| lexpr::from_str_custom(s, o);
+            let is_kw = |s: &str| matches!(p(s), Ok(Value::Keyword(ref k)) if &**k == "a");
+            let mut h = String::new();
+            h.push(bit(is_kw(":a")));
+            h.push(bit(is_kw("a:")));
+            h.push(bit(is_kw("#:a")));
+            h.push(match p("nil") { Ok(Value::Null) => '0', Ok(Value::Symbol(_)) => '1', Ok(Value::Nil) => '2', _ => 'X' });
+            h.push(match p("t") { Ok(Value::Bool(true)) => '0', Ok(Value::Symbol(_)) => '1', _ => 'X' });
+            h.push(match p("[a]") { Ok(Value::Cons(_)) => '0', Ok(Value::Vector(_)) => '1', _ => 'X' });
+            h.push(match p("\"\\x41;\"") { Ok(Value::String(ref s)) if &**s == "A" => '0', Ok(Value::Bytes(ref b)) if &**b == b"A;" => '1', _ => 'X' });
+            h.push(match p("?a") { Ok(Value::Char('a')) => '1', Ok(Value::Symbol(_)) => '0', _ => 'X' });
+            h.push(match p("#%a") { Ok(Value::Symbol(_)) => '1', Err(_) => '0', _ => 'X' });
+            h.push(match p("1+") { Ok(Value::Symbol(_)) => '1', Err(_) => '0', _ => 'X' });
+            format!("R {} {}", g, h)
+        } else {
+            use lexpr::print::*;
+            let mut o = match t[2] { "elisp" => Options::elisp(), _ => Options::default() };
+            for op in &t[3..] {
+                let b = op.as_bytes();
+                o = match b[0] {
+                    b'k' => o.with_keyword_syntax(match b[1] { b'0' => KeywordSyntax::ColonPrefix, b'1' => KeywordSyntax::ColonPostfix, _ => KeywordSyntax::Octothorpe }),
+                    b'n' => o.with_nil_syntax(match b[1] { b'0' => NilSyntax::Symbol, b'1' => NilSyntax::Token, b'2' => NilSyntax::EmptyList, _ => NilSyntax::False }),
+                    b'o' => o.with_bool_syntax(if b[1] == b'0' { BoolSyntax::Token } else { BoolSyntax::Symbol }),
+                    b'v' => o.with_vector_syntax(if b[1] == b'0' { VectorSyntax::Octothorpe } else { VectorSyntax::Brackets }),
+                    b'y' => o.with_bytes_syntax(match b[1] { b'0' => BytesSyntax::R6RS, b'1' => BytesSyntax::R7RS, _ => BytesSyntax::Elisp }),
+                    b's' => o.with_string_syntax(if b[1] == b'0' { StringSyntax::R6RS } else { StringSyntax::Elisp }),
+                    b'c' => o.with_char_syntax(if b[1] == b'0' { CharSyntax::R6RS } else { CharSyntax::Elisp }),
+                    _ => return "bad-op".to_string(),
+                };
+            }
+            let pr = |v: Value| lexpr::to_string_custom(&v, o).unwrap_or_default();
+            let mut h = String::new();
+            h.push(match pr(Value::keyword("k")).as_str() { ":k" => '0', "k:" => '1', "#:k" => '2', _ => 'X' });
+            let bool_sym = pr(Value::Bool(true)) == "t";
+            // with booleans as symbols, NilSyntax::Symbol and NilSyntax::False both print `nil`: one class 'S'
+            h.push(match pr(Value::Nil).as_str() { "nil" => if bool_sym { 'S' } else { '0' }, "#nil" => '1', "()" => '2', "#f" => '3', _ => 'X' });
+            h.push(match pr(Value::Bool(true)).as_str() { "#t" => '0', "t" => '1', _ => 'X' });
+            h.push(match pr(Value::vector(vec![Value::from(1)])).as_str() { "#(1)" => '0', "[1]" => '1', _ => 'X' });
+            h.push(match pr(Value::bytes(vec![1u8])).as_str() { "#vu8(1)" => '0', "#u8(1)" => '1', s if s.starts_with('"') => '2', _ => 'X' });
+            h.push({ let s = pr(Value::string("\u{1}")); if s.contains(';') { '0' } else if s.starts_with('"') { '1' } else { 'X' } });
+            h.push(match pr(Value::Char('a')).as_str() { "#\\a" => '0', "?a" => '1', _ => 'X' });
+            format!("P {}", h)
+        }
+    }));
+    r.unwrap_or_else(|_| "panic".into())
+}
+
 /// `sink <P7|D> <sched> <value>`: delivery to a scheduled sink.
 pub fn exec_sink(t: &[&str]) -> String {
     let mut it = t[3..].iter().copied();
     let v = dec_value(&mut it);
-    let mut sk = SchedSink { sched: parse_sched(t[2]), got: vec![], last_intr: None, calls: 0 };
+    let mut sk = SchedSink { sched: parse_sched(t[2]), got: vec![], last_intr: None, calls: 0, tripped: false };
     let r = catch_unwind(AssertUnwindSafe(|| {
         if t[1] == "D" {
             lexpr::to_writer(&mut sk, &v)
@@ -608,6 +754,14 @@ pub fn pof(r: &str) -> String {
     let d = r.as_bytes();
     let kw = if d[2] == b'1' { 2 } else if d[0] == b'1' { 0 } else if d[1] == b'1' { 1 } else { 2 };
     format!("{}10{}1{}{}", kw, d[5] as char, d[6] as char, d[7] as char)
+}
+
+/// the other printer option set that corresponds to a parser reading Emacs Lisp strings: byte vectors
+/// written as unibyte strings (what `print::Options::elisp()` does), everything else as `pof`
+pub fn pofe(r: &str) -> String {
+    let mut p = pof(r).into_bytes();
+    p[4] = b'2';
+    String::from_utf8(p).unwrap()
 }
 
 /// `rt <P7> <R10> <fast> <value>`: print, then parse the text.
@@ -640,7 +794,7 @@ pub fn exec_prefix(t: &[&str]) -> String {
 pub fn exec_pp(t: &[&str]) -> String {
     let data = if t.len() > 3 { unhex(t[3]) } else { vec![] };
     let ro = parse_opts(t[1]);
-    let po = print_opts(&pof(t[1]));
+    let po = print_opts(&(if t[0] == "ppe" { pofe(t[1]) } else { pof(t[1]) }));
     let v = match lexpr::from_slice_custom(&data, ro) {
         Ok(v) => v,
         Err(e) => return format!("rej {}", err_code(&e)),
@@ -676,8 +830,11 @@ pub fn exec(line: &str) -> String {
         "cmp" => exec_cmp(&t),
         "rt" => exec_rt(&t),
         "prefix" => exec_prefix(&t),
-        "pp" => exec_pp(&t),
+        "pp" | "ppe" => exec_pp(&t),
         "triv" => exec_triv(&t),
+        "opts" => exec_opts(&t),
+        // oracle-only (serde types without a term in the model): evaluated in oracle.rs
+        "serx" => "oracle-only".to_string(),
         #[cfg(feature = "full")]
         "ser" | "de" | "deser" => crate::serde_ops::exec_serde(&t),
         _ => format!("unknown-op {}", t[0]),
